@@ -90,41 +90,48 @@ def code(x):
 EXPS = [0, 1, 2, 3, 5, 254]
 
 
-def gen_field_cases(rng, fd, quick, full_pairs):
+def gen_field_cases(rng, fd, level):
+    """level 2: every ordered pair for q <= 27, all exponents; 1: every pair for q <= 11; 0: every pair for q <= 5"""
     q = user_order(fd)
-    if q <= 27:
+    small = q <= 27
+    if small:
         elems = list(range(q))
     else:
-        elems = sorted({0, 1, 2, q - 1, q - 2, q // 2} | {rng.randrange(q) for _ in range(5 if quick else 12)})
-    if q <= 27 and full_pairs:
+        elems = sorted({0, 1, 2, q - 1, q - 2, q // 2} | {rng.randrange(q) for _ in range((3, 5, 12)[level])})
+    if small and q <= (5, 11, 27)[level]:
         pairs = [(a, b) for a in elems for b in elems]
     else:
-        pairs = [(a, b) for a in elems[:6] for b in elems[:6]] + [(rng.choice(elems), rng.choice(elems)) for _ in range(30)]
-        if q <= 27:
-            pairs += [(a, a) for a in elems] + [(a, 0) for a in elems] + [(0, a) for a in elems]
+        k = (3, 5, 6)[level]
+        pairs = [(a, b) for a in elems[:k] for b in elems[:k]] + [(rng.choice(elems), rng.choice(elems)) for _ in range((10, 30, 60)[level])]
+        if small:
+            pairs += [(a, a) for a in elems] + [(a, 0) for a in elems[:8]] + [(0, a) for a in elems[:8]]
+        else:
+            pairs += [(elems[-1], elems[-1]), (elems[-1], 1), (1, elems[-1])]
         pairs = list(dict.fromkeys(pairs))
-    exps = EXPS + [q - 1, q] + [-1, -2, -(q - 1)]
-    pows = [(a, e) for a in (elems if q <= 27 else elems[:8]) for e in exps if e >= 0 or a != 0]
-    if q > 27 or not full_pairs:
-        pows = [pw for pw in pows if pw[1] >= 0] + [pw for pw in pows if pw[1] < 0][:(6 if quick else 30)]
-    # negative powers go through reciprocal: limit their number in the bulk part
+    # == costs q-1 exponentiation: fewer pairs for large fields
+    neq = len(pairs) if small else (6, 12, 40)[level]
+    exps = EXPS + [q - 1, q] + [-1, -2, -(q - 1)] if level else [0, 1, 2, 254, q - 1, q, -1, -(q - 1)]
+    pe = elems if small and (level or q <= 11) else ([0, 1] + [rng.choice(elems) for _ in range((3, 4, 8)[level])])
+    if not small and level < 2:
+        exps = [0, 2, 3, 254, q - 1, -1, -2]
+    pows = [(a, e) for a in dict.fromkeys(pe) for e in exps if e >= 0 or a != 0]
     npos = [pw for pw in pows if pw[1] >= 0]
     nneg = [pw for pw in pows if pw[1] < 0]
     rng.shuffle(nneg)
-    pows = npos + nneg[:(20 if quick else 200)]
+    pows = npos + nneg[:(8, 20, 200)[level]]
     seq = []
     nz = [a for a in elems if a != 0]
-    for _ in range(3 if quick else 10):
+    for _ in range((2, 3, 10)[level]):
         seq.append(('div', rng.choice(elems), rng.choice(nz)))
-        seq.append(('pow', rng.choice(nz), -rng.choice([1, 2, 3, q - 1, q])))
+        seq.append(('pow', rng.choice(nz), -rng.choice([1, 2, 3, q - 1, q] if small else [1, 2, 3])))
         seq.append(('izp', rng.choice(elems + [0]), 0))
     seq.append(('recip', rng.choice(nz), 0))
     seq.append(('izp', 0, 0))
-    for _ in range(2 if quick else 6):
+    for _ in range((1, 2, 6)[level]):
         seq.append(('tobits', rng.choice(elems), 0))
     seq.append(('tobits', q - 1, 0))
-    mixed = [(rng.choice(elems), rng.choice(elems)) for _ in range(4 if quick else 12)]
-    return {'pairs': pairs, 'pows': pows, 'seq': seq, 'mixed': mixed}
+    mixed = [(rng.choice(elems), rng.choice(elems)) for _ in range((2, 4, 12)[level])]
+    return {'pairs': pairs, 'neq': neq, 'pows': pows, 'seq': seq, 'mixed': mixed}
 
 
 # ---------------------------------------------------------------------------------------------------
@@ -211,7 +218,7 @@ def run_config(job):
             bulk['add'] = [a + b for a, b in zip(A, B)]
             bulk['sub'] = [a - b for a, b in zip(A, B)]
             bulk['mul'] = [a * b for a, b in zip(A, B)]
-            bulk['eq'] = [a == b for a, b in zip(A, B)]
+            bulk['eq'] = [a == b for a, b in list(zip(A, B))[:cs['neq']]]
             bulk['div'] = [a / b for (a, b), (_, vb) in zip(zip(A, B), cs['pairs']) if vb != 0]
             if char2:
                 bulk['xor'] = [a ^ b for a, b in zip(A, B)]
@@ -221,7 +228,7 @@ def run_config(job):
             bulk['pow'] = [F(a) ** e for a, e in cs['pows']]
             # mixed public operands: int and field-element operands on either side
             outf = F.subfield if F.subfield is not None else f
-            pub = (lambda v: v) if F.subfield is not None else f   # lifted types: int operands (finding C04-lifted-subfield-operand)
+            pub = (lambda v: v) if F.subfield is not None else f   # lifted types: int operands (GF(q) elements are rejected by _coerce, see report)
             mx = []
             for a, b in cs['mixed']:
                 sa = F(a)
@@ -269,7 +276,7 @@ def run_config(job):
 
     rec.install()
     try:
-        results = SimNet(m, t, no_prss=no_prss, seed=seed).run(prog)
+        results = SimNet(m, t, no_prss=no_prss, seed=seed, max_steps=200_000_000).run(prog)
         err = None
     except Exception as exc:
         results, err = None, repr(exc)[:700]
@@ -514,8 +521,15 @@ def make_jobs(ctx, rng):
                 if not supported(fd, m, t):
                     ctx.count('unsupported (non-prime field, t>0, m>=q): skipped')
                     continue
-                full = ctx.thorough or (user_order(fd) <= 11) or ((idx + FIELDS.index(fd)) % 4 == 0)
-                plan.append((fd, gen_field_cases(rng, fd, not ctx.thorough, full)))
+                if ctx.thorough:
+                    level = 2
+                elif m == 1:
+                    level = 2 if not no_prss else 1
+                elif m <= 3:
+                    level = 1 if (idx + FIELDS.index(fd)) % 3 == 0 or t > 0 and user_order(fd) <= 5 else 0
+                else:
+                    level = 0
+                plan.append((fd, gen_field_cases(rng, fd, level)))
             jobs.append((m, t, no_prss, ctx.seed * 1000 + idx, plan))
             idx += 1
     return jobs
@@ -537,16 +551,6 @@ def tobits_finding(ctx):
         ctx.count('to_bits on lifted odd prime field (directed)')
         if not ok:
             ctx.violation('to_bits on a lifted prime field: ' + msg, data)
-
-
-def subfield_operand_finding(ctx):
-    data = {'kind': 'lifted-operand', 'm': 3, 't': 1, 'no_prss': False, 'seed': 1, 'q': 3,
-            'finding_key': 'C04-lifted-subfield-operand'}
-    ok, msg = replay(ctx, data)
-    ctx.case(('lifted-operand', 3))
-    ctx.count('public GF(q) operand with a lifted type (directed)')
-    if not ok:
-        ctx.violation('lifted secure field with a public subfield operand: ' + msg, data)
 
 
 def run(ctx):
@@ -599,7 +603,9 @@ def run(ctx):
                         li.append(str(info['deg']))
     ctx.compare('lifting decision and degree (sectypes._SecFld vs MpycV.SecFld)', li, common.LeanDriver('FldConv').run(ll), ll)
     tobits_finding(ctx)
-    subfield_operand_finding(ctx)
+    ctx.note('observation (outside the statement, triaged by the coordinator): a lifted secure field type rejects public '
+             'operands of the subfield type GF(q) with TypeError (sectypes.SecureObject._coerce accepts only elements of the lifted '
+             'field); int operands are used in lifted configurations')
 
 
 def search(ctx):
@@ -632,23 +638,6 @@ def replay(ctx, data):
         if all(r == exp for r in res):
             return True, 'ok'
         return False, f'to_bits(SecFld({q})({v})) with m={data["m"]}, t={data["t"]} gives {res}, expected {exp}'
-    if data.get('kind') == 'lifted-operand':
-        q = data['q']
-        sectypes._SecFld.cache_clear()
-
-        async def prog(mpc):
-            F = mpc.SecFld(q)
-            a = F(q - 1)
-            pub = (F.subfield or F.field)(1)
-            return [code(x) for x in await mpc.output([a + pub, a - pub, a * pub, a / pub, a == pub])]
-        try:
-            res = SimNet(data['m'], data['t'], no_prss=data['no_prss'], seed=data['seed']).run(prog)
-        except Exception as exc:
-            return False, f'SecFld({q}) element op public GF({q}) element with m={data["m"]}, t={data["t"]} raises {repr(exc)[:300]}'
-        exp = [0, (q - 2) % q, q - 1, q - 1, 0]
-        if all(r == exp for r in res):
-            return True, 'ok'
-        return False, f'SecFld({q}): {res}, expected {exp}'
     fd = tuple(data['field'])
     m, t, no_prss, seed = data['m'], data['t'], data['no_prss'], data['seed']
     if data.get('kind') == 'run':
@@ -658,12 +647,12 @@ def replay(ctx, data):
         return ok, res['err'] or ('ok' if ok else 'parties disagree')
     sectypes._SecFld.cache_clear()
     if data.get('kind') in ('lift', 'type'):
-        cs = {'pairs': [(1, 1)], 'pows': [], 'seq': [], 'mixed': []}
+        cs = {'pairs': [(1, 1)], 'neq': 1, 'pows': [], 'seq': [], 'mixed': []}
     else:
         op, ops = data['op'], data['operands']
         a = ops[0]
         b = ops[1] if len(ops) > 1 else 0
-        cs = {'pairs': [(a, b)] if op in ('add', 'sub', 'mul', 'eq', 'div', 'xor', 'and', 'or', 'invert') else [],
+        cs = {'neq': 1, 'pairs': [(a, b)] if op in ('add', 'sub', 'mul', 'eq', 'div', 'xor', 'and', 'or', 'invert') else [],
               'pows': [(a, b)] if op == 'pow' else [], 'mixed': [(a, b)] if op in ('a+int', 'int+a', 'a-elt', 'int-a', 'a*elt', 'int*a', 'a==int', 'a/elt', 'elt/a') else [],
               'seq': [(op if op not in ('is_zero_public', 'to_bits') else {'is_zero_public': 'izp', 'to_bits': 'tobits'}[op], a, b)]
               if op in ('recip', 'is_zero_public', 'to_bits') else []}
